@@ -15,7 +15,7 @@ func init() {
 		Explanation: "Decides the per-table isolation and batching mechanics of both store back-ends: (R1) table registry — every storage.Table constant has its own name and its own distinct key prefix (decided by evaluating Prefix()/String() decision tables on every constant), and the RocksDB column-family name and option lists have one entry per constant in constant order (handles are indexed by the constant); " +
 			"(R2) B+tree prefix discipline — every key handed to the tree is prefix‖key, every key handed back has the prefix removed, and inside every tree-iteration callback an item reaches the result only under a comparison that involves the table's prefix; (R3) every RocksDB store method uses the handle indexed by its own table argument; " +
 			"(R4) one write batch per Mutate, handles released; (R5) both back-ends signal absence with storage.ErrKeyNotFound, and absence is decided by nil-ness of the value, not by its length.",
-		Added:       "Also (R4) every batch handed to db.Write is created in the same call; (R7) keys/values are copied out of native slices into buffers sized by the same slice. Third round: (R4) a reader hands out newly allocated pairs with their own key/value (never recycling the ones found in the caller's buffer) and reports an error only with an empty chunk.",
+		Added:       "Also (R4) every batch handed to db.Write is created in the same call; (R7) keys/values are copied out of native slices into buffers sized by the same slice. Third round: (R4) a reader hands out newly allocated pairs with their own key/value (never recycling the ones found in the caller's buffer) and reports an error only with an empty chunk. Fifth round: B+tree walks bound the key by the table prefix on both sides; a batch is never reordered unstably.",
 		Assumptions: []string{"google/btree iterates in key order; RocksDB column families are isolated"},
 		Declined:    "equivalence with a map model over all operation sequences; durability across reopen.",
 	}, runC14)
@@ -223,7 +223,9 @@ func c14Bplus(c *Ctx) {
 			}
 			sinks++
 			cs := p.CondsAt(in.Block())
-			guarded := hasCond(cs, func(k Cond) bool { return isPrefixDerived(k.Atom) && isItem(k.Atom) })
+			guarded := hasCond(cs, func(k Cond) bool {
+				return (isPrefixDerived(k.Atom) || isPrefixDerived(p.UpParamsDeep(k.Atom))) && isItem(k.Atom)
+			})
 			if guarded {
 				// bounded on both sides: the walk's starting point bounds the key on one side only, the comparisons
 				// of the key's first byte with the prefix must supply the other (decided when every
